@@ -186,6 +186,20 @@ def worker(shard: dict) -> dict:
     elif kind == "facts":
         for t in metafront.FACTS_ACCEPT + metafront.FACTS_REJECT + [x for x, _ in metafront.FACTS_STRUCT] + gtexts.EDGE_TEXTS:
             judge(t, "fact_table", oracle, acc, vk)
+        # every listed open finding's witness is run explicitly; one that no longer fails is reported as stale (not an alarm)
+        for fid, f in open_findings("C10").items():
+            w = f.get("witness", {}).get("text")
+            if w is None:
+                continue
+            verdict, _d = compare(w, oracle)
+            acc.count("known_finding_witnesses_run")
+            if verdict.startswith("known:") and fid in verdict:
+                acc.known_hit(fid, {"text": w, "witness": True})
+            elif verdict == "agree-accept":
+                acc.add_to("stale_findings", fid)
+                acc.count("stale_finding_witnesses")
+            elif verdict == "VIOLATION":
+                judge(w, "finding_witness", oracle, acc, vk)
     for _k, lst in vk.items():
         for _n, d in lst:
             acc.violation("c10", d)
